@@ -489,7 +489,8 @@ class ReaderMachine(HistoryMachine):
         L, spf = self.model.m.length, max(1, self.model.m.spf)
         o = data.draw(st.one_of(st.integers(0, L), st.sampled_from([0, L, max(0, spf - 1), min(L, spf), max(0, L - 1), min(L, 2 * spf)]),
                                 st.integers(0, min(L, 3 * spf))))
-        n = data.draw(st.one_of(st.integers(0, min(L, 40)), st.sampled_from([0, 1, 2, 3, 5, spf, spf + 1, 2 * spf + 1]), st.integers(0, min(L, 3 * spf))))
+        n = data.draw(st.one_of(st.integers(0, min(L, 40)), st.sampled_from([0, 1, 2, 3, 5, spf, spf + 1, 2 * spf + 1]), st.integers(0, min(L, 3 * spf)),
+                                st.sampled_from([L, L // 2 + 1, min(L, 8193), min(L, 16385)])))
         return o, n
 
     @rule(data=st.data(), times=st.sampled_from([1, 1, 2, 2, 3]))
